@@ -307,7 +307,11 @@ func Log(format string, a ...any) {
 func Go(site string, f func()) {
 	e := cur
 	if e == nil {
-		go f()
+		passLive.Add(1)
+		go func() {
+			defer passLive.Add(-1)
+			f()
+		}()
 		return
 	}
 	if e.aborting {
